@@ -416,14 +416,18 @@ func envSubstWithOptions() yqAction {
 		noEmpty := hasOptionParameter(value, "ne")
 		noUnset := hasOptionParameter(value, "nu")
 		failFast := hasOptionParameter(value, "ff")
+		verifYield("envsubstOpType.write")
 		envsubstOpType.Type = "ENVSUBST"
 		prefs := envOpPreferences{NoUnset: noUnset, NoEmpty: noEmpty, FailFast: failFast}
 		if noEmpty {
+			verifYield("envsubstOpType.write")
 			envsubstOpType.Type = envsubstOpType.Type + "_NO_EMPTY"
 		}
 		if noUnset {
+			verifYield("envsubstOpType.write")
 			envsubstOpType.Type = envsubstOpType.Type + "_NO_UNSET"
 		}
+		verifYield("envsubstOpType.read")
 
 		op := &Operation{OperationType: envsubstOpType, Value: envsubstOpType.Type, StringValue: value, Preferences: prefs}
 		return &token{TokenType: operationToken, Operation: op}, nil
